@@ -187,3 +187,34 @@ func TestVerifWitness_D10(t *testing.T) {
 	_, err := p.ParseProgram()
 	fmt.Printf("WITNESS-PASSES D10 (no panic; err=%v)\n", err)
 }
+
+// D5: a typed text selected through the '_' fallback of a poryswitch loses its string type
+// (contract parsePoryswitchTextStatement/exit[C12:select-text])
+func TestVerifWitness_D5(t *testing.T) {
+	src := "text T {\n poryswitch(LANG) {\n  EN: \"hello\"\n  _: ascii\"fallback\"\n }\n}\n"
+	manual := "text T {\n ascii\"fallback\"\n}\n"
+	get := func(s string) (string, string, error) {
+		p := New(lexer.New(s), CommandConfig{}, "", "", 0, map[string]string{"LANG": "DE"})
+		prog, err := p.ParseProgram()
+		if err != nil {
+			return "", "", err
+		}
+		for _, tx := range prog.Texts {
+			if tx.Name == "T" {
+				return tx.Value, tx.StringType, nil
+			}
+		}
+		return "", "", fmt.Errorf("text T not found")
+	}
+	v1, t1, err1 := get(src)
+	v2, t2, err2 := get(manual)
+	if err1 != nil || err2 != nil {
+		fmt.Printf("WITNESS-FAILS D5 unexpected errors: %v / %v\n", err1, err2)
+		return
+	}
+	if v1 != v2 || t1 != t2 {
+		fmt.Printf("WITNESS-FAILS D5 poryswitch '_' case gives value=%q type=%q, the selected case written directly gives value=%q type=%q\n", v1, t1, v2, t2)
+		return
+	}
+	fmt.Printf("WITNESS-PASSES D5 value=%q type=%q\n", v1, t1)
+}
